@@ -9,6 +9,7 @@ import (
 	ethcrypto "github.com/ethereum/go-ethereum/crypto"
 	ctrlertypes "github.com/rigochain/rigo-go/ctrlers/types"
 	rtypes "github.com/rigochain/rigo-go/types"
+	abcitypes "github.com/tendermint/tendermint/abci/types"
 	tmtypes "github.com/tendermint/tendermint/types"
 )
 
@@ -282,6 +283,7 @@ type TxOutcome struct {
 	Code   uint32
 	GasUse int64
 	Data   []byte
+	Events []abcitypes.Event
 }
 
 // Deliver resolves, signs, encodes and delivers a template, and updates the wallet-side bookkeeping
@@ -297,7 +299,7 @@ func (c *Chain) Deliver(s TxSpec, bal *big.Int) TxOutcome {
 
 func (c *Chain) DeliverBuilt(s TxSpec, tx *ctrlertypes.Trx, bz []byte) TxOutcome {
 	rec, resp := c.DeliverRaw(bz, s.String())
-	out := TxOutcome{Spec: s, Tx: tx, Bytes: bz, Hash: tmtypes.Tx(bz).Hash(), Rec: rec, Code: resp.Code, GasUse: resp.GasUsed, Data: resp.Data}
+	out := TxOutcome{Spec: s, Tx: tx, Bytes: bz, Hash: tmtypes.Tx(bz).Hash(), Rec: rec, Code: resp.Code, GasUse: resp.GasUsed, Data: resp.Data, Events: resp.Events}
 	if rec.Panic == "" && resp.Code == 0 {
 		c.BlockTxOK++
 		c.Nonces[s.From]++
